@@ -1,6 +1,6 @@
 """DelegCli.tla: the tuftool delegation workflow (create-role, add-role, update-delegated-targets, add-key,
 remove-key, remove, update --role) as a protocol between the owner and the holders of delegated roles.
-Shared by C07 and C10: TLC checks the protocol model, generates behaviours (simulation over three plan
+Shared by C07 and C10: TLC checks the protocol model, generates behaviours (simulation over four plan
 families), the harness replays them through the tuftool binary, inspects the published repository
 independently after every command and loads it with a fresh client; the property predicates are evaluated on
 the observed data, any other disagreement with the model is DRIFT."""
@@ -29,7 +29,7 @@ def model_check(w, tag, steps):
 
 def generate(w, tag, seed, num, steps):
     out, seen = [], set()
-    for fam in ("MC_Free", "MC_Alt", "MC_Deep"):
+    for fam in ("MC_Free", "MC_Alt", "MC_Deep", "MC_Staged"):
         cfg = _cfg(w, f"gen-{fam}.cfg", {"MaxSteps": steps, "Plans": "<- " + fam}, ["Emit"], props=False)
         g = tlc("MC_DelegCli", cfg, f"{tag}-gen-{fam}", workers=1, timeout=900, simulate=num, depth=steps + 1, seed=seed)
         fam_rows = []
@@ -143,7 +143,7 @@ def run_into(v, pid, tier, seed):
     w = workdir(tag)
     tuftool = vlib.build_tuftool()
     g = model_check(w, tag, 6 if tier == "quick" else 8)
-    num, steps, per = (60, 7, 14) if tier == "quick" else (700, 8, 400)
+    num, steps, per = (60, 7, 11) if tier == "quick" else (700, 8, 300)
     fams = generate(w, tag, seed, num, steps)
     cases = [c for fam in fams for c in fam[:per]]
     cp, out = os.path.join(w, "cases.ndjson"), os.path.join(w, "out.ndjson")
